@@ -12,6 +12,7 @@ import (
 	"encoding/json"
 	"fmt"
 	"os"
+	"strings"
 	"time"
 
 	"github.com/zeromicro/go-zero/core/logx"
@@ -22,9 +23,12 @@ import (
 
 const rule = "(A) breadth-first search over histories of qrow/take/qidx/get reads, Exec writes+deletes with the row's cache keys, SetCache, SetCacheWithExpire(2.5s), " +
 	"clock advances {TTL/2, TTL, not-found TTL, TTL+6s}, next-DB-query-fails, cache outage begin/end (<=4 cache ops inside), jitter answer {x1.00,x1.05,x0.95} " +
-	"over rows {k1,k2} x {absent,v1,v2} and cache keys {p:1,p:2,i:a}; a state is distinct by reference state + complete miniredis content with TTLs and " +
+	"over rows {k1,k2} x {absent,v1,v2} and cache keys {p:1,p:2,i:a}; histories-pk: the same reads/writes/advances with the rows' primary keys being int >= 1e6, int > 2^53 or strings (first op picks the shape); " +
+	"a state is distinct by reference state + complete miniredis content with TTLs and " +
 	"non-trivial when a cache entry, taint or armed fault is part of it; every transition re-executes the real code from an empty store. " +
-	"(B) every interleaving up to the preemption bound reported per scenario of 3 concurrent Take/QueryRow readers; distinct by (scenario, queries per key, flights, per-reader source Q=own query S=shared flight H=cache hit E=error)"
+	"(B) every interleaving up to the preemption bound reported per scenario of 3 concurrent Take/QueryRow/QueryRowIndex readers (primary-key shapes small, >= 1e6, > 2^53, string); distinct by (scenario, queries per cache key, flights, per-reader source Q=own query S=shared flight H=cache hit E=error). " +
+	"(C) retry ladder: every outage length T-1,T,T+1 around each retry time T of the cleaner (1s,6s,66s,366s,3966s after a failed invalidation) x stale entry kind {row,placeholder,index} x Exec context {request,background} x random-source answer {0.5,0,1}, " +
+	"the cleaner's wheel ticked by the harness; distinct by case + observed retry times, non-trivial when a stale entry existed and coherence was demanded after the outage"
 
 func main() {
 	logx.Disable() // go-zero logs to stdout, which carries the worker protocols
@@ -33,7 +37,7 @@ func main() {
 	r := vlib.NewReport(cfg)
 	r.Assume("miniredis stands for Redis: TTLs move only with FastForward; an outage makes every data command answer with an error (go-redis does not retry it)")
 	r.Assume("the redis client is built with breaker.NopBreaker() (white-box constructor): its real breaker is process-global per address and real-time, so it would couple histories")
-	r.Assume("the cache cleaner's retry of a failed invalidation runs on a process-global real-time timing wheel; the check parks that wheel and stops demanding coherence for a key whose invalidation hit an outage")
+	r.Assume("the cache cleaner's retry of a failed invalidation runs on a process-global real-time timing wheel; the check replaces it by the same wheel (1-s interval, 300 slots, same execute function) on a harness-owned ticker: one tick = one second. After an invalidation hit an outage coherence of its keys is demanded again from the first retry attempted against a healthy store (A), and at the latest one tick per ladder step after the first retry time 1s,5s,1m,5m,1h (cumulative) that follows the end of the outage (C)")
 	r.Assume("(B) a redis call (client lookup + round trip) is one atomic step; interleavings are explored between redis calls, inside SingleFlight/cacheNode and inside the database query")
 
 	if cfg.Replay != "" {
@@ -64,6 +68,24 @@ func main() {
 			r.Eval(1)
 			r.Finish()
 		}
+		if probe.Replay.Kind == "ladder" {
+			var c LadderCase
+			class, err := vlib.LoadReplay(cfg.Replay, &c)
+			if err != nil {
+				vlib.Fatal("load replay: %v", err)
+			}
+			initEnv()
+			fmt.Printf("replay class=%s retry-ladder case: %v\n", class, c)
+			res := runLadder(c, true)
+			if res.fail != nil {
+				fmt.Printf("observed: class=%s: %s\n", res.fail.class, res.fail.msg)
+				r.Violation(res.fail.class, res.fail.msg, c)
+			} else {
+				fmt.Println("observed: the case satisfies the oracle")
+			}
+			r.Eval(1)
+			r.Finish()
+		}
 	}
 	if cfg.Shard != "" || cfg.BFSWorker != "" || cfg.Replay != "" {
 		initEnv()
@@ -88,22 +110,22 @@ func main() {
 		os.Exit(0)
 	}
 	only := os.Getenv("C06_ONLY") // debugging aid: "A" or "B" runs one engine only
-	if cfg.Shard == "" && cfg.Replay == "" && only != "B" {
+	if cfg.Shard == "" && cfg.Replay == "" && (only == "" || only == "A") {
 		// (A): soft time boxes of the history searches (quick: 75 + 25 s of the 150 s wall budget;
 		// thorough: 11 + 3 + 3 of the 25 minutes); (B) gets the rest of cfg.Deadline()
-		box := []time.Duration{75 * time.Second, 0, 100 * time.Second}
-		d1, d2 := 6, 6
+		box := []time.Duration{75 * time.Second, 0, 100 * time.Second, 125 * time.Second}
+		d1, d2, dpk := 6, 6, 7
 		if cfg.Thorough() {
-			box = []time.Duration{11 * time.Minute, 14 * time.Minute, 17 * time.Minute}
-			d1, d2 = 8, 8
+			box = []time.Duration{11 * time.Minute, 14 * time.Minute, 17 * time.Minute, 19 * time.Minute}
+			d1, d2, dpk = 8, 8, 9
 		}
 		if cfg.BudgetS > 0 {
 			b := time.Duration(cfg.BudgetS) * time.Second
-			box = []time.Duration{b * 4 / 10, b * 5 / 10, b * 6 / 10}
+			box = []time.Duration{b * 4 / 10, b * 5 / 10, b * 6 / 10, b * 65 / 100}
 		}
 		if v := os.Getenv("C06_DEPTH"); v != "" { // debugging aid
 			fmt.Sscan(v, &d1)
-			d2 = d1
+			d2, dpk = d1, d1
 		}
 		// one failing invalidation per history, issued with a request context that is then cancelled
 		searchHistories(cfg, r, "histories", false, d1, 1, false, cfg.Start.Add(box[0]))
@@ -112,6 +134,16 @@ func main() {
 			searchHistories(cfg, r, "histories-faults", false, 6, 2, true, cfg.Start.Add(box[1]))
 		}
 		searchHistories(cfg, r, "histories-cluster", true, d2, 1, false, cfg.Start.Add(box[2]))
+		// the sequential histories over the other primary-key shapes (first op = shape)
+		searchHistories(cfg, r, "histories-pk", false, dpk, 0, false, cfg.Start.Add(box[3]))
+	}
+	// (C): the retry ladder of failed invalidations, one worker process per (entry kind, random-source answer)
+	if cfg.Replay == "" && (only == "" || only == "C") && (cfg.Shard == "" || strings.HasPrefix(cfg.Shard, "ladder/")) {
+		vlib.RunShards(r, ladderShards(), func(shard string, r *vlib.Report) { runLadderShard(cfg, r, shard) })
+	}
+	if only == "C" && cfg.Replay == "" {
+		r.SetRule(rule)
+		r.Finish()
 	}
 	if only == "A" && cfg.Shard == "" && cfg.Replay == "" {
 		r.SetRule(rule)
